@@ -1,6 +1,7 @@
 import RV.C03.Codec
 import RV.C03.Struct
 import RV.C03.NTLine
+import RV.C03.RefSplit
 /-
   C03 — executable model (re-exports the layers; see Codec.lean, Struct.lean).
 -/
